@@ -59,11 +59,10 @@ private theorem writeFlags_corrupt (s : Oam) : (writeFlags s).corrupt = s.corrup
 
 private theorem cpuWrite_corrupt (s : Oam) (a v : Nat) (h : 0xFE00 ≤ a ∧ a < 0xFF00) :
     ((cpuWrite s (BitVec.ofNat 16 a) (BitVec.ofNat 8 v)).getD s).corrupt = s.corrupt := by
-  rw [cpuWrite_some s a v h]
-  simp only [Option.getD_some]
-  split
-  · exact writeFlags_corrupt s
-  · exact writeFlags_corrupt s
+  obtain ⟨o, ho, f1, _⟩ := cpuWrite_fields s a v h
+  rw [ho]
+  show o.corrupt = _
+  rw [f1, writeFlags_corrupt]
 
 private theorem win_lcdc (o : Oam) (p : Lcd.Ppu) (v : Nat) (h : Win o p) :
     Win (oamAfterLcdc p (v.testBit 7) o) (Lcd.wLCDC p v) := by
@@ -206,7 +205,7 @@ theorem c17_whole_window_dmaStep (b : Board) (h : OamWindowInv b) : OamWindowInv
 
 /-- **window, `audio.EndMachineCycle`** -/
 theorem c17_whole_window_apuStep (b : Board) (h : OamWindowInv b) : OamWindowInv b.apuStep := by
-  rw [whole_step_apu]; exact h
+  unfold OamWindowInv; rw [apuStep_m]; exact h
 
 /-- **window, `timer.EndMachineCycle`** -/
 theorem c17_whole_window_timerStep (b : Board) (h : OamWindowInv b) : OamWindowInv b.timerStep := h
@@ -310,11 +309,12 @@ private theorem dbl_write (m : Machine) (a v : Nat) (h : Dbl m.oam) : Dbl (oamAf
   unfold oamAfterWrite
   split
   · rename_i h1
-    rw [cpuWrite_some _ a v h1]
-    simp only [Option.getD_some]
-    split
-    · exact dbl_writeFlags _ h
-    · exact dbl_writeFlags _ h
+    obtain ⟨o, ho, _, _, f3, f4, _⟩ := cpuWrite_fields m.oam a v h1
+    rw [ho]
+    show Dbl o
+    unfold Dbl
+    rw [f3, f4]
+    exact dbl_writeFlags _ h
   · split
     · unfold oamAfterLcdc
       split
@@ -387,7 +387,7 @@ private theorem double_end (b : Board) (h : DoubleInv b) : DoubleInv b.endCycle 
   · intro b hb
     obtain ⟨_, _, _, f3, f4, _⟩ := dmaStep_flags b
     unfold DoubleInv; rw [f3, f4]; exact hb
-  · intro b hb; rw [whole_step_apu]; exact hb
+  · intro b hb; unfold DoubleInv; rw [apuStep_m]; exact hb
   · intro b hb; exact hb
 
 private theorem settled_corrupt (b : Board) : Settled b.corrupt := by
@@ -423,7 +423,9 @@ private theorem settled_end (b : Board) (h : Settled b) : Settled b.endCycle := 
     · right
       rw [whole_step_dma]
       cases endMachineCycle Serial.genReadArms b.m <;> first | rfl | exact hb
-  · intro b hb; rw [whole_step_apu]; exact hb
+  · intro b hb
+    have e : b.apuStep.crashed = b.crashed := by rw [whole_step_apu]
+    unfold Settled; rw [apuStep_m, e]; exact hb
   · intro b hb; exact hb
 
 /-- **the invariant of reachable states**, as far as OAM is concerned: the never-panics invariant, the window
@@ -553,25 +555,23 @@ theorem c17_whole_write_bytes (b : Board) (a v : Nat) (ha : a < 65536) (k : Nat)
     congr 2; exact board_write_oam b a v ha]
   unfold oamAfterWrite
   by_cases h1 : 0xFE00 ≤ a ∧ a < 0xFF00
-  · rw [if_pos h1, cpuWrite_some _ a v h1]
-    simp only [Option.getD_some]
-    by_cases h2 : a < 0xFEA0
-    · rw [dif_pos h2]
-      show (b.m.oam.oam.set (a - 0xFE00) (BitVec.ofNat 8 v) _)[k] = _
-      rw [Vector.getElem_set]
-      by_cases h3 : k = a - 0xFE00
-      · rw [if_pos h3.symm, if_pos ⟨h1.1, h2, h3⟩]
-      · rw [if_neg (fun e => h3 e.symm), if_neg (fun e => h3 e.2.2)]
-    · rw [dif_neg h2, if_neg (fun e => h2 e.2.1)]
-      congr 1; exact writeFlags_oam _
-  · rw [if_neg h1, if_neg (fun e => h1 ⟨e.1, by omega⟩)]
-    split
-    · congr 1
-      unfold oamAfterLcdc
+  · obtain ⟨o, ho, _, _, _, _, _, f6⟩ := cpuWrite_fields b.m.oam a v h1
+    rw [if_pos h1, ho]
+    show o.oam[k] = _
+    rw [f6 k hk]
+    by_cases hx : a < 0xFEA0 ∧ k = a - 0xFE00
+    · rw [if_pos hx, if_pos ⟨h1.1, hx.1, hx.2⟩]
+    · rw [if_neg hx, if_neg (fun e => hx ⟨e.2.1, e.2.2⟩)]
+  · have hrhs : ¬ (0xFE00 ≤ a ∧ a < 0xFEA0 ∧ k = a - 0xFE00) := fun e => h1 ⟨e.1, by have := e.2.1; omega⟩
+    have e : (if a = 0xFF40 then oamAfterLcdc b.m.ppu (v.testBit 7) b.m.oam
+        else if a = 0xFF46 then writeDMA b.m.oam (BitVec.ofNat 8 v) else b.m.oam).oam = b.m.oam.oam := by
       split
-      · rfl
+      · unfold oamAfterLcdc
+        split
+        · rfl
+        · split <;> rfl
       · split <;> rfl
-    · split <;> rfl
+    rw [if_neg h1, if_neg hrhs, e]
 
 /-- **C17 (frame) on the whole-machine board.**  With the window closed and no trigger pending, every board
     operation that does not open the window leaves the OAM unit `Quiet`, and leaves all 160 bytes unchanged –
@@ -597,10 +597,12 @@ theorem c17_whole_frame (b : Board) (op : BoardOp) (hq : Quiet b.m.oam)
     unfold oamAfterWrite
     split
     · rename_i h1
-      rw [cpuWrite_some _ a v h1]
-      simp only [Option.getD_some]
-      have e : writeFlags b.m.oam = b.m.oam := by simp [writeFlags, hc]
-      split <;> rw [e] <;> exact ⟨hc, hr, hw, hd⟩
+      obtain ⟨o, ho, f1, f2, f3, f4, _, _⟩ := cpuWrite_fields b.m.oam a v h1
+      have e := (writeFlags_fields b.m.oam).2.2.2.1 hc
+      rw [ho]
+      show Quiet o
+      rw [e] at f1 f2 f3 f4
+      exact ⟨f1.trans hc, f2.trans hr, f3.trans hw, f4.trans hd⟩
     · split
       · rename_i h2
         unfold oamAfterLcdc
@@ -629,10 +631,9 @@ theorem c17_whole_frame (b : Board) (op : BoardOp) (hq : Quiet b.m.oam)
     rw [(f7 hoff).1]; exact ⟨hc, hr, hw, hd⟩
   | dma =>
     obtain ⟨_, g1, g2, g3, g4, g5, g6⟩ := dmaStep_flags b
-    exact ⟨fun _ => ⟨by rw [g1]; exact hc, by rw [g2]; exact hr, by rw [g3]; exact hw, by rw [g4]; exact hd⟩,
-      g5, g6⟩
+    exact ⟨fun _ => ⟨g1.trans hc, g2.trans hr, g3.trans hw, g4.trans hd⟩, g5, g6⟩
   | apu =>
-    have e : b.apuStep.m = b.m := by rw [whole_step_apu]
+    have e : b.apuStep.m = b.m := apuStep_m b
     exact ⟨fun _ => by show Quiet b.apuStep.m.oam; rw [e]; exact ⟨hc, hr, hw, hd⟩,
       by show b.apuStep.m.oam.oam = _; rw [e]⟩
   | timer => exact ⟨fun _ => ⟨hc, hr, hw, hd⟩, rfl⟩
@@ -769,16 +770,19 @@ private theorem track_write (b0 : Board) (g : Ghost Board) (a : Cpu.Word) (v : C
     unfold oamAfterWrite
     split
     · rename_i hr
-      rw [cpuWrite_some _ _ _ hr]
-      simp only [Option.getD_some]
-      have e : writeFlags g.bus.m.oam = g.bus.m.oam := by simp [writeFlags, q.1]
-      split <;> rw [e] <;> exact i
+      obtain ⟨o, ho, _, _, _, _, f5, _⟩ := cpuWrite_fields g.bus.m.oam a.toNat v.toNat hr
+      rw [ho]
+      show o.dmaRunning = false
+      rw [f5, (writeFlags_fields _).2.2.1]
+      exact i
     · split
       · unfold oamAfterLcdc
         split
         · exact i
         · split <;> exact i
-      · rw [if_neg hdma]; exact i
+      · first
+          | exact i
+          | (rw [if_neg hdma]; exact i)
   · intro e hon
     show (g.bus.write a.toNat v.toNat).m.ppu.enabled = true
     rw [ep]
@@ -840,20 +844,18 @@ private theorem track_cpu (b0 : Board) (c : Cpu.Cpu) (g : Ghost Board) (h : Trac
   · intro g v hg; exact track_same b0 g _ hg rfl rfl
   · intro g k hg; exact track_same b0 g _ hg rfl rfl
 
+/-- board `x` relative to board `b`: same bytes, trigger flags; DMA engine idle; if the LCD was off in `b` the
+    OAM unit is the same and the LCD is off -/
+private def EndRel (b x : Board) : Prop :=
+  x.m.oam.oam = b.m.oam.oam ∧ x.m.oam.read = b.m.oam.read ∧ x.m.oam.write = b.m.oam.write ∧
+  x.m.oam.doubleWrite = b.m.oam.doubleWrite ∧ x.m.oam.dmaRunning = false ∧
+  (b.m.ppu.enabled = false → x.m.oam = b.m.oam ∧ x.m.ppu.enabled = false)
+
 /-- what the four end-of-cycle calls do to the OAM unit when no transfer runs: nothing to the bytes, the trigger
     flags and the DMA engine; with the LCD off nothing at all, and the LCD stays off -/
-private theorem endCycle_oam (b : Board) (hd : b.m.oam.dmaRunning = false) :
-    b.endCycle.m.oam.oam = b.m.oam.oam ∧ b.endCycle.m.oam.read = b.m.oam.read ∧
-    b.endCycle.m.oam.write = b.m.oam.write ∧ b.endCycle.m.oam.doubleWrite = b.m.oam.doubleWrite ∧
-    b.endCycle.m.oam.dmaRunning = false ∧
-    (b.m.ppu.enabled = false → b.endCycle.m.oam = b.m.oam ∧ b.endCycle.m.ppu.enabled = false) := by
-  -- as a predicate on the board reached, relative to `b`
-  let P : Board → Prop := fun x =>
-    x.m.oam.oam = b.m.oam.oam ∧ x.m.oam.read = b.m.oam.read ∧ x.m.oam.write = b.m.oam.write ∧
-    x.m.oam.doubleWrite = b.m.oam.doubleWrite ∧ x.m.oam.dmaRunning = false ∧
-    (b.m.ppu.enabled = false → x.m.oam = b.m.oam ∧ x.m.ppu.enabled = false)
-  have h0 : P b := ⟨rfl, rfl, rfl, rfl, hd, fun e => ⟨rfl, e⟩⟩
-  refine endCycle_pres P ?_ ?_ ?_ ?_ b h0
+private theorem endCycle_oam (b : Board) (hd : b.m.oam.dmaRunning = false) : EndRel b b.endCycle := by
+  have h0 : EndRel b b := ⟨rfl, rfl, rfl, rfl, hd, fun e => ⟨rfl, e⟩⟩
+  refine endCycle_pres (EndRel b) ?_ ?_ ?_ ?_ b h0
   · intro x ⟨p1, p2, p3, p4, p5, p6⟩
     obtain ⟨f1, f2, f3, f4, f5, _, f7⟩ := ppuStep_flags x
     refine ⟨f1.trans p1, f2.trans p2, f3.trans p3, f4.trans p4, f5.trans p5, fun e => ?_⟩
@@ -862,13 +864,13 @@ private theorem endCycle_oam (b : Board) (hd : b.m.oam.dmaRunning = false) :
     exact ⟨r1.trans q1, by rw [r2]; exact q2⟩
   · intro x ⟨p1, p2, p3, p4, p5, p6⟩
     obtain ⟨g0, _, _, _, _, g5, _⟩ := dmaStep_flags x
-    have e := g5 p5
-    rw [show x.dmaStep.m.oam = x.m.oam from e]
-    exact ⟨p1, p2, p3, p4, p5, fun h => ⟨(p6 h).1, by rw [g0]; exact (p6 h).2⟩⟩
+    have e : x.dmaStep.m.oam = x.m.oam := g5 p5
+    unfold EndRel
+    rw [e, g0]
+    exact ⟨p1, p2, p3, p4, p5, p6⟩
   · intro x hx
-    have e : x.apuStep.m = x.m := by rw [whole_step_apu]
-    show P x.apuStep
-    simp only [P, e]
+    unfold EndRel
+    rw [apuStep_m]
     exact hx
   · intro x hx; exact hx
 
@@ -917,8 +919,9 @@ theorem c17_whole_cycle (w : Whole) (hq : Quiet w.b.m.oam) (hidle : w.b.m.oam.dm
       · obtain ⟨r1, r2⟩ := e6 (off e hoff)
         exact ⟨r2, by show Quiet (afterCpu w).2.endCycle.m.oam; rw [r1]; exact q⟩
   · rw [whole_cycle_stopped w hs]
-    refine ⟨fun k hk hne => absurd rfl hne, hidle, ⟨hq.2.1, hq.2.2.1, hq.2.2.2⟩,
-      fun hc => by rw [hq.1] at hc; cases hc, fun e _ => ⟨e, hq⟩⟩
+    refine ⟨fun k hk hne => absurd rfl hne, hidle, ⟨hq.2.1, hq.2.2.1, hq.2.2.2⟩, ?_, fun e _ => ⟨e, hq⟩⟩
+    intro hc
+    rw [hq.1] at hc; cases hc
 
 /-- … in particular: a cycle in which the CPU performs no bus write into FE00–FE9F leaves all 160 bytes as they
     were -/
